@@ -27,6 +27,7 @@ import (
 	"fmt"
 	"math"
 	"os"
+	"sort"
 	"strconv"
 	"strings"
 	"sync"
@@ -79,7 +80,11 @@ type c03Input struct {
 	Hosts    []c03Obj   `json:"hosts"`
 	Svcs     []c03Obj   `json:"svcs"`
 	Tps      []int      `json:"tps"`
-	Events   []c03Event `json:"events"`
+	// Order: in which order the backend keeps (and therefore answers) its hosts and services:
+	// "" primary key order, "reversed", "shuffled" (a new permutation before every step, from OrderSeed)
+	Order     string     `json:"order,omitempty"`
+	OrderSeed int        `json:"order_seed,omitempty"`
+	Events    []c03Event `json:"events"`
 }
 
 type c03Row struct {
@@ -425,6 +430,46 @@ func (r *c03Runner) armAbort(ab string, vnow int) (expectQueries int) {
 	return expectQueries
 }
 
+// reorder puts the rows of the backend's hosts and services tables into the order of this step:
+// a real core answers in its internal order, which need not be the primary key order lmd sorts by.
+func (r *c03Runner) reorder(step int) {
+	if r.in.Order == "" {
+		return
+	}
+	r.backend.WithLock(func() {
+		for ti, name := range []string{"hosts", "services"} {
+			tab := r.backend.Table(name)
+			if tab == nil {
+				continue
+			}
+			nkeys := 1 + ti
+			sort.SliceStable(tab.Rows, func(i, j int) bool {
+				for c := range nkeys {
+					a, b := vKeyText(tab.Rows[i][c]), vKeyText(tab.Rows[j][c])
+					if a != b {
+						return a < b
+					}
+				}
+
+				return false
+			})
+			num := len(tab.Rows)
+			switch r.in.Order {
+			case "reversed":
+				for i, j := 0, num-1; i < j; i, j = i+1, j-1 {
+					tab.Rows[i], tab.Rows[j] = tab.Rows[j], tab.Rows[i]
+				}
+			default:
+				rnd := newVRand(uint64(r.in.OrderSeed)*7919 + uint64(step+1)*31 + uint64(ti))
+				for i := num - 1; i > 0; i-- {
+					j := rnd.intn(i + 1)
+					tab.Rows[i], tab.Rows[j] = tab.Rows[j], tab.Rows[i]
+				}
+			}
+		}
+	})
+}
+
 func (r *c03Runner) mutate(ev *c03Event) {
 	table, t := "hosts", 0
 	key := []string{c03HostName(ev.K)}
@@ -614,6 +659,7 @@ func c03RunCase(idx int, in *c03Input) (obs []c03Obs, notes []string) {
 	run := &c03Runner{in: in, lmd: lmd, peer: peer, backend: backend}
 	run.ver[0] = make([]int, len(in.Hosts))
 	run.ver[1] = make([]int, len(in.Svcs))
+	run.reorder(-1)
 	if err := peer.InitAllTables(ctx); err != nil {
 		return nil, []string{"InitAllTables: " + err.Error()}
 	}
@@ -625,6 +671,7 @@ func c03RunCase(idx int, in *c03Input) (obs []c03Obs, notes []string) {
 	peer.lastUpdate.Set(c03Abs(in.T0))
 
 	for ei := range in.Events {
+		run.reorder(ei)
 		run.step(ctx, &in.Events[ei])
 		o := c03Obs{}
 		var err error
@@ -778,6 +825,11 @@ func c03Main(args []string) int {
 		go func() {
 			defer wg.Done()
 			for i := range jobs {
+				if len(inputs[i].Hosts) == 0 || len(inputs[i].Svcs) == 0 {
+					inputs[i].Events = nil // not an input of this stream (replay file of another one)
+
+					continue
+				}
 				results[i], notes[i] = c03RunCase(i, inputs[i])
 			}
 		}()
